@@ -111,6 +111,16 @@ func gen(tier string) []proto.Item {
 				items = append(items, proto.Item{Scn: s, Class: fmt.Sprintf("%s/no-send-delay/dest-%d", v, d)})
 			}
 		}
+		// a duplicate of a router's reply arrives while a later probe is being waited for (the serial engine ends that wait on
+		// any valid reply; the reply stream stays shifted by one from there on): the probes are still the delay apart
+		for _, t := range []int{1, 2} {
+			for _, extra := range []int{12000, 30000} {
+				s := proto.Scn{Variant: v, First: 1, Last: 6, Dest: 6, IPIDBase: 1000, EchoBase: 50, TimeoutMs: 300, DelayMs: 10}
+				vi := proto.Info(v)
+				s.Inject = []proto.Inject{{OnTTL: t, AnswerTTL: t, Form: vi.TEForm, From: proto.Router(vi.V6, 0, t).String(), DelayUs: proto.DefaultDelayUs(t) + extra, Tag: "late-duplicate", Genuine: true}}
+				items = append(items, proto.Item{Scn: s, Class: fmt.Sprintf("%s/late-duplicate-of-ttl%d", v, t)})
+			}
+		}
 		// a send call that takes longer than the configured delay (the socket waited for buffer space, 15ms) and then
 		// succeeds: the k-th, or every one; the probes on the wire are still at least the delay apart
 		for _, k := range []int{1, 2, 3, 0} {
